@@ -316,6 +316,15 @@ Proof. exact (dim2_hyps 5). Qed.
 Example c13_fanout_partial_guard_satisfiable : all_nack dim_state (dim2 5) mixed_q ((2, 1), (2, 2)).
 Proof. exact fanout_all_nack_example. Qed.
 
+(* ---- DimmerRootDevice::SetDmxBlockAddress as it is: the range check uses the footprints read at
+   the time of the request and the apply loop cannot fail afterwards, so a NACK (wrong length, base 0,
+   block beyond the bound) leaves every sub-device's start address unchanged ---- *)
+Theorem c13_block_address :
+  forall q l, (q_cc q = GET_COMMAND \/ q_cc q = SET_COMMAND \/ q_cc q = DISCOVER_COMMAND) ->
+              good q l (set_dmx_block_address q l).
+Proof. exact set_dmx_block_address_ok. Qed.
+Print Assumptions c13_block_address.
+
 (* the literal numbers of the property text *)
 Theorem c13_constants :
   MAX_PDL = 231 /\ RDM_WAS_BROADCAST = 1 /\ RDM_COMPLETED_OK = 0 /\ ALL_RDM_SUBDEVICES = 65535 /\
